@@ -21,7 +21,7 @@ Brief(x) == IF x.un THEN [ok |-> "unspecified"]
 
 Accept(e, x) ==
   /\ e.toks = Render(e.ast)
-  /\ \/ x.un
+  /\ \/ x.un /\ e.res \in {"ok", "err"}          \* left open by the table -- but never a panic
      \/ x.ok /\ e.res = "ok" /\ e.b = Bytes8(x.v)
      \/ ~x.ok /\ ~x.un /\ e.res = "err"
 
